@@ -1,5 +1,4 @@
 // ---- the limb-count constants of src/fields/@f@.rs (values re-read from the source on every run)
-pub const B: usize = @B@;
 pub const N_8: usize = @N8@;
 pub const N_32: usize = @N32@;
 pub const N_64: usize = @N64@;
